@@ -1,5 +1,5 @@
 (* C14 - Algorithm and attestation-format lists are filtered in order, never rejected. *)
-From Ctap Require Import Base Schema Wire Utf8 Typed Procs Inst Tables ProcTables Finite FramingP WireP FilterP ObRequestSide FnShapes Shapes ObShapeFilters Deps ObDeps.
+From Ctap Require Import Base Schema Wire Utf8 Typed Procs Inst Tables ProcTables Finite FramingP WireP FilterP ObRequestSide FnShapes Shapes ObShapeFilters Deps ObDeps ObShapeRequest.
 Local Open Scope string_scope.
 Local Open Scope Z_scope.
 
@@ -70,6 +70,10 @@ Proof. exact generated_shapes_filters. Qed.
 Theorem c14_modelled_dependencies_pinned : deps_hold lock_versions cargo_deps = true.
 Proof. exact generated_deps. Qed.
 
+(* further hand-modelled functions this property rests on *)
+Theorem c14_modelled_functions_unchanged_request : shapes_hold fn_shapes shapes_request = true.
+Proof. exact generated_shapes_request. Qed.
+
 Eval vm_compute in "ASSUMPTIONS c14_known_param". Print Assumptions c14_known_param.
 Eval vm_compute in "ASSUMPTIONS c14_params_filter". Print Assumptions c14_params_filter.
 Eval vm_compute in "ASSUMPTIONS c14_loop_is_fold". Print Assumptions c14_loop_is_fold.
@@ -79,3 +83,4 @@ Eval vm_compute in "ASSUMPTIONS c14_generated_constants". Print Assumptions c14_
 Eval vm_compute in "ASSUMPTIONS c14_generated_conforms". Print Assumptions c14_generated_conforms.
 Eval vm_compute in "ASSUMPTIONS c14_modelled_functions_unchanged_filters". Print Assumptions c14_modelled_functions_unchanged_filters.
 Eval vm_compute in "ASSUMPTIONS c14_modelled_dependencies_pinned". Print Assumptions c14_modelled_dependencies_pinned.
+Eval vm_compute in "ASSUMPTIONS c14_modelled_functions_unchanged_request". Print Assumptions c14_modelled_functions_unchanged_request.
